@@ -214,7 +214,10 @@ func (r *run) settle(at []string) bool {
 		if !isGate(who, want) {
 			continue
 		}
-		if !r.e.await(func() bool { w := r.e.find(who); return w != nil && w.key == want }, gateWait) {
+		// parked at another gate is a definite answer; not parked at all is given the full time
+		if !r.e.await(func() bool { return r.e.find(who) != nil }, gateWait) {
+			ok = false
+		} else if w := r.e.find(who); w == nil || w.key != want {
 			ok = false
 		}
 	}
@@ -370,12 +373,22 @@ func (r *run) quiesce() bool {
 	dlPolls, rdTicks, inTick := 0, 0, false
 	reset := func() { dlPolls, rdTicks, inTick = 0, 0, false }
 	gens := r.n.genCount()
+	lastDrv, sameDrv := "", 0
 	for it := 0; it < 5000; it++ {
 		if r.n.genCount() != gens {
 			gens = r.n.genCount()
 			reset()
 		}
 		if w := r.e.find("drv"); w != nil {
+			if w.key == lastDrv {
+				sameDrv++
+			} else {
+				lastDrv, sameDrv = w.key, 0
+			}
+			if sameDrv > 25 {
+				r.stuck = "the driver retries " + w.key + " for ever"
+				return false
+			}
 			if !r.e.release(w, false, stuckWait) {
 				r.stuck = "driver call did not finish"
 				return false
